@@ -25,6 +25,7 @@ import (
 
 type simCfg struct {
 	peerNoReset bool // the peer's Logons carry ResetSeqNumFlag=N when they do not ask for a reset
+	use789      bool // EnableNextExpectedMsgSeqNum=Y; the peer's Logons carry 789 = what it expects next (faithfully)
 	richID      bool // SessionID with SubID / LocationID / Qualifier
 	begin       string
 	initiator   bool
@@ -122,6 +123,20 @@ func drawExtras(t *rapid.T, c *stats.Collector, cfg *simCfg) {
 	}
 }
 
+// draw789 lets a configuration agree on NextExpectedMsgSeqNum (tag 789) in the Logon: the properties
+// about delivery and recovery hold with the option as without it. The simulated counterparty
+// announces exactly what it has received (it never claims more than the engine has sent).
+func draw789(t *rapid.T, c *stats.Collector, cfg *simCfg) {
+	if cfg.begin >= "FIX.4.4" && rapid.IntRange(0, 3).Draw(t, "extra-next-expected-in-logon") == 0 {
+		if cfg.settings == nil {
+			cfg.settings = map[string]string{}
+		}
+		cfg.settings[config.EnableNextExpectedMsgSeqNum] = "Y"
+		cfg.use789 = true
+		c.Class("setting:EnableNextExpectedMsgSeqNum")
+	}
+}
+
 func newSim(t vk.TB, c *stats.Collector, cfg simCfg) *sim {
 	s := &sim{t: t, c: c, cfg: cfg}
 	id := quickfix.SessionID{BeginString: cfg.begin, SenderCompID: "ENG", TargetCompID: "PEER"}
@@ -159,6 +174,9 @@ func newSim(t vk.TB, c *stats.Collector, cfg simCfg) *sim {
 	s.r = r
 	s.p = peer.New(cfg.begin, "PEER", "ENG")
 	s.p.ExplicitNoReset = cfg.peerNoReset
+	if cfg.use789 {
+		s.p.NextExpected = func() int { return s.r.S() }
+	}
 	return s
 }
 
